@@ -46,6 +46,14 @@ def law_cases():
         ("def log = []; for i in [1, 2, 3] do do if i == 2 then continue; if i == 3 then break; append(log, i) finally append(log, -i) end end; log", ('text', "[1, -1, -2, -3]")),
         ("def log = []; do do error 1 finally do error 2 finally append(log, 'inner') end end catch 2 append(log, 'two') end; log", ('text', "['inner', 'two']")),
         ("def log = []; do append(log, 1); error 'x'; append(log, 2) catch 'x' append(log, 3) end; log", ('text', "[1, 3]")),
+        # a function body that is ONE statement inside a block with handlers / a finally part keeps them
+        ("def f() do return 1 / 0; catch all 'caught' end; f()", ('text', "'caught'")),
+        ("def f() do return error 7; catch 7 'seven' end; f()", ('text', "'seven'")),
+        ("def log = []; def f() do return 5; finally append(log, 'fin') end; [f(), log]", ('text', "[5, ['fin']]")),
+        ("def log = []; def f(x) do return 10 / x; catch all -1 finally append(log, x) end; [f(2), f(0), log]", ('text', "[5, -1, [2, 0]]")),
+        ("def f = fn() do return undefined_zz; catch all 'lam' end; f()", ('text', "'lam'")),
+        ("def o = <*m = fn(self) do return self->nope(); catch all 'meth' end*>; o->m()", ('text', "'meth'")),
+        ("def f() do 1 / 0; catch all 'plain' end; f()", ('text', "'plain'")),
     ]
     # errors raised by the runtime carry the value 'ERROR' (that is what a handler has to name), at every kind of failing site
     for site in ["1 / 0", "1.5 / 0", "1 / 0.0", "2.5 / 0.0", "1 % 0", "1.5 % 0", "7 % 0.0", "undefined_name_x", "[1, 2][5]", "'abc'[7]", "not 3", "1 and TRUE", "if 3 then 1",
